@@ -95,13 +95,26 @@ pub fn run(rep: &mut StageReport, tier: &str, seed: u64) {
             out.push((ns.clone(), tp.clone(), kind, zone, r));
         }
         // ---- isolation: distinct valid names that collide under sloppy keying ---------------------------
-        let groups: Vec<Vec<&str>> = vec![
+        let mut groups: Vec<Vec<String>> = vec![
             vec!["/abc/defg", "/abcd/efg", "/abc/def", "/abcd/ef-g"],
             vec!["/Topic/name", "/topic/name", "/topic/Name", "/TOPIC/NAME"],
             vec!["/left/right", "/right/left", "/left-right/left", "/left/right-left"],
             vec!["/a-b/c_d", "/a_b/c-d", "/a-b/c-d", "/a_b/c_d"],
             vec!["/abc/abc", "/abcabc/abc", "/abc/abcabc", "/abc-/abc"],
-        ];
+        ]
+        .into_iter()
+        .map(|g| g.into_iter().map(|x| x.to_string()).collect())
+        .collect();
+        // names that are long in *bytes* (≤ 64 characters, but 65 … 256 bytes) and differ only late: whatever the server
+        // keys its topics by must not stop at a byte count
+        {
+            let rep_ = |c: char, n: usize| -> String { std::iter::repeat(c).take(n).collect() };
+            groups.push(vec![format!("/{}a/orders", rep_('é', 32)), format!("/{}b/orders", rep_('é', 32)), format!("/orders/{}a", rep_('é', 32)), format!("/orders/{}b", rep_('é', 32))]);
+            groups.push(vec![format!("/{}x/{}", rep_('ü', 63), "top"), format!("/{}y/{}", rep_('ü', 63), "top"), format!("/top/{}x", rep_('ü', 63)), format!("/top/{}y", rep_('ü', 63))]);
+            groups.push(vec![format!("/{}1/日本語", rep_('日', 63)), format!("/{}2/日本語", rep_('日', 63)), format!("/{}1{}/日本語", rep_('日', 21), rep_('本', 10)), format!("/{}2{}/日本語", rep_('日', 21), rep_('本', 10))]);
+            groups.push(vec![format!("/{}a/{}", rep_('\u{10400}', 16), rep_('\u{10400}', 3)), format!("/{}b/{}", rep_('\u{10400}', 16), rep_('\u{10400}', 3)), format!("/{}/{}a", rep_('\u{10400}', 3), rep_('\u{10400}', 63)), format!("/{}/{}b", rep_('\u{10400}', 3), rep_('\u{10400}', 63))]);
+        }
+        let n_groups = groups.len() as u64;
         let mut leaks: Vec<String> = vec![];
         let mut iso_msgs = 0u64;
         for g in &groups {
@@ -109,8 +122,14 @@ pub fn run(rep: &mut StageReport, tier: &str, seed: u64) {
             let mut subs = vec![];
             let mut pubs = vec![];
             for name in g {
-                let t = TopicName::try_from(*name).map_err(|e| format!("{name}: {e}"))?;
+                let t = TopicName::try_from(name.as_str()).map_err(|e| format!("{name}: {e}"))?;
                 let (s, r) = c.open(reg(1, t.clone()), Duration::from_secs(6)).await.map_err(|e| e.to_string())?;
+                if let Some(Frame::Error(e)) = &r {
+                    // nobody else uses this name: a refusal (typically "topic exists with the other pattern") means the
+                    // server took it for another name's topic
+                    leaks.push(format!("the valid name {} ({} bytes), used by nobody else on this server, was refused as a subscriber with error code {} ({}): it is being taken for another name's topic", name, name.len(), e.code, String::from_utf8_lossy(&e.message)));
+                    continue;
+                }
                 if r != Some(Frame::Ok) {
                     return Err(format!("isolation: subscriber on {} answered {:?}", name, r));
                 }
@@ -120,6 +139,9 @@ pub fn run(rep: &mut StageReport, tier: &str, seed: u64) {
                     return Err(format!("isolation: publisher on {} answered {:?}", name, r));
                 }
                 pubs.push(p);
+            }
+            if subs.len() != g.len() {
+                continue; // (a refusal has been recorded above)
             }
             // every publisher sends ids tagged with its own name, concurrently; repeat until every
             // subscriber has seen its own topic's traffic (registration took effect)
@@ -134,7 +156,7 @@ pub fn run(rep: &mut StageReport, tier: &str, seed: u64) {
                     while let Ok(Some(Ok(Frame::Message(m)))) = tokio::time::timeout(Duration::from_millis(30), s.next()).await {
                         let text = String::from_utf8_lossy(&m.message).to_string();
                         let origin = text.split('|').next().unwrap_or("");
-                        if origin == g[i] {
+                        if origin == g[i].as_str() {
                             seen_own[i] = true;
                         } else {
                             leaks.push(format!("subscriber of {} received a message published on {}", g[i], origin));
@@ -182,9 +204,9 @@ pub fn run(rep: &mut StageReport, tier: &str, seed: u64) {
         }
         second_pass_from = first_pass;
         server.stop();
-        Ok((out, leaks, iso_msgs))
+        Ok((out, leaks, iso_msgs, n_groups))
     });
-    let (out, leaks, iso_msgs) = match results {
+    let (out, leaks, iso_msgs, n_groups) = match results {
         Ok(x) => x,
         Err(e) => {
             rep.inconclusive(&e);
@@ -252,6 +274,6 @@ pub fn run(rep: &mut StageReport, tier: &str, seed: u64) {
     rep.count("wire_names_must_reject", zone_counts[1]);
     rep.count("wire_names_tolerated", zone_counts[2]);
     rep.count("isolation_messages_published", iso_msgs);
-    rep.count("isolation_name_groups", 5);
-    rep.rule = "raw registrations of all four kinds carrying (namespace, topic) pairs built with the unchecked constructor: names the reference predicate rejects must be answered with Error{INVALID_TOPIC_NAME}, valid names with Ok; a second pass on the same server re-submits every rejected name and names recombined from the parts of accepted names (the verdict must not depend on history); plus 5 groups of 4 distinct valid names that collide under sloppy keying, each publishing tagged messages concurrently — a tag seen on another name refutes isolation; distinct = distinct (namespace, topic, kind)".into();
+    rep.count("isolation_name_groups", n_groups);
+    rep.rule = "raw registrations of all four kinds carrying (namespace, topic) pairs built with the unchecked constructor: names the reference predicate rejects must be answered with Error{INVALID_TOPIC_NAME}, valid names with Ok; a second pass on the same server re-submits every rejected name and names recombined from the parts of accepted names (the verdict must not depend on history); plus 9 groups of 4 distinct valid names that collide under sloppy keying (case, separators, concatenation, names of up to 256 bytes that differ only after byte 64), each publishing tagged messages concurrently — a tag seen on another name refutes isolation; distinct = distinct (namespace, topic, kind)".into();
 }
